@@ -132,10 +132,13 @@ func c02Pre(seq []pubPkt, pre []int, c int, cacheOn, h265 bool, m c02model) stri
 func c02Judge(seq []pubPkt, rec []int, lo, hi int, cacheOn, h265 bool, m c02model, liveSkew int) (bool, string) {
 	total := len(seq)
 	why := ""
-	for c := lo; c <= hi; c++ {
+	for c := lo; c <= hi && c <= total; c++ {
 		nlive := total - c
 		nlive -= liveSkew // diagnostic: >0 live part lacks its first packets, <0 it repeats the last replayed ones
 		mcut := len(rec) - nlive
+		if nlive < 0 || mcut > len(rec) {
+			continue // (only reachable from c02Classify's relaxed windows)
+		}
 		if mcut < 0 {
 			why = "fewer packets than the live part alone"
 			continue
@@ -162,7 +165,12 @@ func c02Judge(seq []pubPkt, rec []int, lo, hi int, cacheOn, h265 bool, m c02mode
 }
 
 // c02Classify attributes a failed judgement to the narrowest relaxation that explains it.
-func c02Classify(seq []pubPkt, rec []int, lo, hi int, cacheOn, h265 bool) string {
+func c02Classify(seq []pubPkt, rec []int, lo, hi int, cacheOn, h265 bool) (class string) {
+	defer func() { // the relaxed windows are explored on records the model already rejected: never let that end the shard
+		if recover() != nil {
+			class = "no-valid-cut"
+		}
+	}()
 	if ok, _ := c02Judge(seq, rec, lo, hi, cacheOn, h265, c02model{perSliceRestart: true}, 0); ok {
 		return "gop-replay-starts-mid-keyframe:multi-slice-key-picture"
 	}
